@@ -2,5 +2,5 @@ CONSTANTS
   Design = "repaired"
   MaxName = 4
 SPECIFICATION Spec
-INVARIANTS C16_LocalFirst C16_FetchOnlyForMeasurement C16_ForcedIsNetwork C16_PathConfined Emit
+INVARIANTS C16_LocalFirst C16_FetchOnlyForMeasurement C16_ForcedIsNetwork C16_PathConfined C16_SuppliedDecides C16_ValidatorOffline Emit
 CHECK_DEADLOCK FALSE
